@@ -26,7 +26,7 @@ def plan(tier):
             gen.append("vk_proof! {\n" + ATTR % (h + 4) + STUBS + "fn %s() { line_incomplete::<%d>(%d); }\n}\n" % (fn, h, ty))
             p.add(MOD, H(fn, {"frame": name, "header_bytes": h, "crlf": "absent"}, "line_incomplete"))
     # inline commands (first byte not a type character): the tokenizer over symbolic characters is heavy
-    for h, t in (() if tier == "quick" else ((0, 0), (1, 0))):
+    for h, t in ():  # (inline commands: the tokenizer over symbolic characters gives no verdict in 20 min; not scheduled)
         fn = "c21_line_inline_h%d_t%d" % (h, t)
         gen.append("vk_proof! {\n" + ATTR % (h + t + 6) + STUBS + "fn %s() { line_frame::<%d, %d>(0); }\n}\n" % (fn, h, t))
         p.add(MOD, H(fn, {"frame": "inline", "header_bytes": h, "trailing_bytes": t}, "line_inline"))
@@ -92,7 +92,7 @@ def plan(tier):
                "decimal digits (optionally signed) with nothing after them; nesting limit + 1" % (maxn, 4 if tier == "quick" else 5,
                                                                               2 if tier == "quick" else 3, 12 if tier == "quick" else 14))
     p.not_covered = ("declared counts of 15 or more digits (19 symbolic digits: no verdict in 25 min — the i64/usize overflow region of the "
-                     "length parse is therefore NOT covered); longer frames; inline commands (quick tier: the tokenizer over symbolic characters does not finish in the budget); "
+                     "length parse is therefore NOT covered); longer frames; inline commands (the tokenizer over symbolic characters gives no verdict in 20 min); "
                      "arrays whose elements are not simple strings, nested arrays with symbolic content; real stack exhaustion")
     p.per_harness_timeout = 900 if tier == 'quick' else 1500
     p.total_timeout = 2700 if tier == 'quick' else 7000
